@@ -17,9 +17,18 @@ Partial aspects
   ticks and timer expiries are environment events; the harness observes the real periods with tolerance.
 -/
 import KafkaVerif.Lemmas.GroupInv
+import KafkaVerif.Gen.GroupFacts
 
 namespace KV.Group.C15
 open KV.Group
+
+/-! ### regenerated tie: the accounting statements the model mirrors, re-read from the source on every run -/
+
+/-- `close()` waits on `joined` iff `r > 0`; the exit section of `Start` closes `joined` when `g.routines == 0` after
+the decrement; `Start` has exactly one `g.routines++` and one `g.routines--`. -/
+theorem accounting_matches_source :
+    KV.Gen.Group.closeWaitTest = (">", "0") ∧ KV.Gen.Group.startLastRoutineTest = ("==", "0") ∧
+    KV.Gen.Group.startRoutinesIncDec = (1, 1) := by decide
 
 /-! ### joined_iff -/
 
